@@ -15,7 +15,7 @@ pub fn props() -> Vec<Prop> {
             id: "C06",
             run: c06,
             tools: None,
-            rule: "byte-vector model (path -> Vec<u8>) stepped in lock-step with seeded histories of write_all / write_lines / append_all / append_line / append_lines / write() and append() handles (also kept open across calls on other files) / copy / move_p over 4 files in 2 directories with hostile data (empty, 1 byte, multi-byte UTF-8, invalid UTF-8, embedded \\n and \\r\\n, 4 KiB and 64 KiB blocks, every payload tagged with a unique id); after every call ALL files are re-read through read(), read_all() and read_lines() (and std::fs::read on Stdfs) and compared with the model, so a write that leaks into another file or an aliased copy is seen at once; read_lines(write_lines(ls)) == ls for terminator-free non-empty lines. Both backends. distinct_nontrivial = distinct (backend, operation, data class, pre-existing content class) tuples. Later addition: every file is also read through a handle that has already been used (read 1, seek(End(-k)), read_to_end, seek(Start(1)), read_to_end).",
+            rule: "byte-vector model (path -> Vec<u8>) stepped in lock-step with seeded histories of write_all / write_lines / append_all / append_line / append_lines / write() and append() handles (also kept open across calls on other files) / copy / move_p over 4 files in 2 directories with hostile data (empty, 1 byte, multi-byte UTF-8, invalid UTF-8, embedded \\n and \\r\\n, 4 KiB and 64 KiB blocks, every payload tagged with a unique id); after every call ALL files are re-read through read(), read_all() and read_lines() (and std::fs::read on Stdfs) and compared with the model, so a write that leaks into another file or an aliased copy is seen at once; read_lines(write_lines(ls)) == ls for terminator-free non-empty lines. Both backends. distinct_nontrivial = distinct (backend, operation, data class, pre-existing content class) tuples. Later addition: every file is also read through a handle that has already been used (read 1, seek(End(-k)), read_to_end, seek(Start(1)), read_to_end). A reader from read() is also kept open across any other calls (rewrite, append, move away and re-creation of its file) and then closed: the model does not move when it is closed.",
             assumptions: &["a handle kept open is only interleaved with calls on OTHER files (what two writers to one file see is not stated)", "the Stdfs half runs as uid 1000 in a private sandbox"],
             shards_quick: 8,
             shards_thorough: 16,
@@ -28,7 +28,7 @@ pub fn props() -> Vec<Prop> {
             id: "C07",
             run: c07,
             tools: None,
-            rule: "read side: a handle from read() and a std::io::Cursor over the same bytes are driven in lock-step by every script up to depth 2 (quick) / 3 (thorough) over read(buf of 0,1,len-1,len,len+1 bytes), seek(Start|Current|End with every offset in -len-1..=len+2 and i64::MIN, i64::MAX, u64::MAX), stream_position, read_to_end for files of length 0..=5, plus seeded random longer scripts; every returned value must agree (same Ok value / both Err), after an Err the position is unchanged, nothing panics. write side: every composition of 6 bytes into <= 4 chunks x flush bit after each chunk x drop after every prefix, for write() and append() on absent / empty / non-empty files; after every flush and after the drop an independent read must equal exactly the bytes written so far (append: old content + those bytes). Both backends (Stdfs offsets limited to < 2^32). distinct_nontrivial = distinct (backend, script shape class, outcome class) tuples.",
+            rule: "read side: a handle from read() and a std::io::Cursor over the same bytes are driven in lock-step by every script up to depth 2 (quick) / 3 (thorough) over read(buf of 0,1,len-1,len,len+1 bytes), seek(Start|Current|End with every offset in -len-1..=len+2 and i64::MIN, i64::MAX, u64::MAX), stream_position, read_to_end for files of length 0..=5, plus seeded random longer scripts; every returned value must agree (same Ok value / both Err), after an Err the position is unchanged, nothing panics. write side: every composition of 6 bytes into <= 4 chunks x flush bit after each chunk x drop after every prefix, for write() and append() on absent / empty / non-empty files; after every flush and after the drop an independent read must equal exactly the bytes written so far (append: old content + those bytes); for append() handles additionally another append_all to the same file at every point where the handle has nothing unflushed (after open, after each flush): its byte and the handle's bytes must all be there in the order they were made durable. Both backends (Stdfs offsets limited to < 2^32). distinct_nontrivial = distinct (backend, script shape class, outcome class) tuples.",
             assumptions: &["what a write() handle shows between open and its first flush is not specified and not judged", "on Stdfs offsets beyond 2^32 are answered by the kernel (EINVAL), not by rivia, and are not generated"],
             shards_quick: 8,
             shards_thorough: 16,
@@ -164,9 +164,12 @@ fn c06_backend<V: VirtualFileSystem>(v: &V, backend: &str, root: &str, ctx: &Ctx
     let mut uid = (ctx.shard as u64) << 40;
     let mut hist: Vec<String> = vec![];
     let mut held: Option<Held> = None;
+    // a reader that stays open across other calls: closing it - whatever happened to its file meanwhile, rewrite,
+    // append, removal by a move and re-creation - takes nothing back (what it still reads is not judged)
+    let mut reader: Option<(String, Box<dyn ReadSeek>)> = None;
     for _ in 0..steps {
         let f = rng.pick(&files).clone();
-        let choice = rng.below(16);
+        let choice = rng.below(17);
         // the file a handle is open on is left alone - except that other APPENDING calls may reach it while an append
         // handle has nothing unflushed (the order of all appends is then unambiguous: every one adds at the end and
         // none may take anything away)
@@ -335,6 +338,26 @@ fn c06_backend<V: VirtualFileSystem>(v: &V, backend: &str, root: &str, ctx: &Ctx
                         continue;
                     }
                 }
+            },
+            14 => match reader.take() {
+                None => {
+                    if model.contains_key(&f) {
+                        if let Ok(r) = v.read(&f) {
+                            after = format!("read({}) opened", f);
+                            rep.key_str(&format!("{}|open-read|{}", backend, pre_cls));
+                            reader = Some((f.clone(), r));
+                        }
+                    }
+                },
+                Some((path, mut r)) => {
+                    let mut buf = vec![0u8; rng.below(8)];
+                    let _ = r.read(&mut buf);
+                    drop(r);
+                    let changed = model.get(&path).map(|d| d.len());
+                    after = format!("reader({}) read {} bytes and was dropped", path, buf.len());
+                    rep.key_str(&format!("{}|close-read|{}|{}", backend, buf.len(), changed.is_some()));
+                    rep.count("readers_closed_after_other_calls", 1);
+                },
             },
             _ => {
                 after = format!("read({})", f);
@@ -590,6 +613,18 @@ fn c07_write<V: VirtualFileSystem>(v: &V, backend: &str, root: &str, ctx: &Ctx, 
             for comp in &comps {
                 for flush_bits in 0..(1u32 << comp.len()) {
                     for drop_after in 0..=comp.len() {
+                        // another appending call reaches the file while the append handle is open and has nothing
+                        // unflushed (right after open, right after a flush): every append adds at the end, so the
+                        // handle's bytes still land after whatever the file holds by then and nothing is taken away
+                        let mut intrusions: Vec<Option<usize>> = vec![None];
+                        if append {
+                            for k in 0..=drop_after.min(comp.len()) {
+                                if k == 0 || flush_bits & (1 << (k - 1)) != 0 {
+                                    intrusions.push(Some(k));
+                                }
+                            }
+                        }
+                        for intrude in intrusions {
                         idx += 1;
                         if !ctx.mine(idx) {
                             continue;
@@ -607,8 +642,13 @@ fn c07_write<V: VirtualFileSystem>(v: &V, backend: &str, root: &str, ctx: &Ctx, 
                             _ => "content",
                         };
                         let what = if append { "append" } else { "write" };
-                        rep.key_str(&format!("{}|{}|{}|chunks{}|flush{:b}|drop{}", backend, what, pre_cls, comp.len(), flush_bits, drop_after));
-                        set_case(&format!("handle:{}:{}:returns→stalls", backend, what), &format!("{:?} {:b} {}", comp, flush_bits, drop_after));
+                        let icls = match intrude {
+                            None => "none",
+                            Some(0) => "after-open",
+                            Some(_) => "after-flush",
+                        };
+                        rep.key_str(&format!("{}|{}|{}|chunks{}|flush{:b}|drop{}|other-append-{}", backend, what, pre_cls, comp.len(), flush_bits, drop_after, icls));
+                        set_case(&format!("handle:{}:{}:returns→stalls", backend, what), &format!("{:?} {:b} {} {:?}", comp, flush_bits, drop_after, intrude));
                         let wit = |stage: &str, exp: &[u8], got: &Res| {
                             J::obj(vec![
                                 ("backend", J::s(backend)),
@@ -617,6 +657,7 @@ fn c07_write<V: VirtualFileSystem>(v: &V, backend: &str, root: &str, ctx: &Ctx, 
                                 ("chunks", J::s(format!("{:?}", comp))),
                                 ("flush_after_chunk_bits", J::s(format!("{:b}", flush_bits))),
                                 ("dropped_after_chunk", J::Int(drop_after as i64)),
+                                ("other_append_before_chunk", J::s(format!("{:?}", intrude))),
                                 ("stage", J::s(stage)),
                                 ("expected", J::s(String::from_utf8_lossy(exp))),
                                 ("got", J::s(got.short())),
@@ -628,22 +669,35 @@ fn c07_write<V: VirtualFileSystem>(v: &V, backend: &str, root: &str, ctx: &Ctx, 
                                 Err(e) => return Some(("open→Err".to_string(), J::s(e.to_string()))),
                             };
                             let mut off = 0;
-                            let mut written: Vec<u8> = vec![];
-                            for (ci, c) in comp.iter().enumerate() {
-                                if ci >= drop_after {
+                            // what the file must hold once everything written so far has been flushed
+                            let mut exp: Vec<u8> = base.clone();
+                            let mut pending: Vec<u8> = vec![];
+                            for ci in 0..=comp.len() {
+                                if intrude == Some(ci) {
+                                    if v.append_all(&path, b"+").is_err() {
+                                        return Some(("other-append→Err".to_string(), J::Null));
+                                    }
+                                    exp.push(b'+');
+                                    let got = exec(v, &Op::ReadBytes(path.clone()));
+                                    if got != Res::Bytes(exp.clone()) {
+                                        return Some((format!("after-other-append:adds-at-the-end→differs"), wit("after the other append", &exp, &got)));
+                                    }
+                                }
+                                if ci >= drop_after || ci >= comp.len() {
                                     break;
                                 }
+                                let c = comp[ci];
                                 if h.write_all(&data[off..off + c]).is_err() {
                                     return Some(("write_all→Err".to_string(), J::Null));
                                 }
-                                written.extend(&data[off..off + c]);
+                                pending.extend(&data[off..off + c]);
                                 off += c;
                                 if flush_bits & (1 << ci) != 0 {
                                     if h.flush().is_err() {
                                         return Some(("flush→Err".to_string(), J::Null));
                                     }
-                                    let mut exp = base.clone();
-                                    exp.extend(&written);
+                                    exp.extend(&pending);
+                                    pending.clear();
                                     let got = exec(v, &Op::ReadBytes(path.clone()));
                                     if got != Res::Bytes(exp.clone()) {
                                         return Some((format!("after-flush:bytes-written-so-far→differs"), wit("after flush", &exp, &got)));
@@ -651,8 +705,7 @@ fn c07_write<V: VirtualFileSystem>(v: &V, backend: &str, root: &str, ctx: &Ctx, 
                                 }
                             }
                             drop(h);
-                            let mut exp = base.clone();
-                            exp.extend(&written);
+                            exp.extend(&pending);
                             let got = exec(v, &Op::ReadBytes(path.clone()));
                             if got != Res::Bytes(exp.clone()) {
                                 return Some((format!("after-drop:bytes-written-so-far→differs"), wit("after drop", &exp, &got)));
@@ -661,8 +714,12 @@ fn c07_write<V: VirtualFileSystem>(v: &V, backend: &str, root: &str, ctx: &Ctx, 
                         });
                         match r {
                             Err(m) => rep.violation(&format!("handle:{}({},{}):no-panic→panic", what, backend, pre_cls), J::s(m)),
-                            Ok(Some((sig, w))) => rep.violation(&format!("handle:{}({},{},dropped-after={}):{}", what, backend, pre_cls, if drop_after == 0 { "0" } else if drop_after == comp.len() { "all" } else { "some" }, sig), w),
+                            Ok(Some((sig, w))) => rep.violation(
+                                &format!("handle:{}({},{},dropped-after={}{}):{}", what, backend, pre_cls, if drop_after == 0 { "0" } else if drop_after == comp.len() { "all" } else { "some" }, if intrude.is_some() { format!(",other-append-{}", icls) } else { String::new() }, sig),
+                                w,
+                            ),
                             Ok(None) => {},
+                        }
                         }
                     }
                 }
